@@ -113,6 +113,9 @@ def gen_arg(rng, ctr, shorts, kind, opts):
         a["hide_short"] = a["hide_long"] = True
         it.append("(x-hide-short)")
         it.append("(x-hide-long)")
+    if kind in ("flag", "opt") and not opts.get("required") and rng.random() < opts.get("p_global", 0.0):
+        a["global"] = True
+        flags.append("global")
     if flags:
         # an existing (flags ..) item (reqeq) is merged
         prev = [x for x in it if x and x.startswith("(flags ")]
@@ -202,7 +205,7 @@ def gen_arg(rng, ctr, shorts, kind, opts):
     return a
 
 
-def gen_cmd(rng, ctr, name, depth, prof):
+def gen_cmd(rng, ctr, name, depth, prof, reserved=()):
     n = ctr.next()
     c = {"name": name, "items": [], "args": [], "subs": []}
     it = c["items"]
@@ -224,7 +227,7 @@ def gen_cmd(rng, ctr, name, depth, prof):
     c["sets"] = sets
     if rng.random() < prof.get("p_cmd_next_line", 0.08):
         c["next_line"] = True
-    shorts = list(SHORT_POOL)
+    shorts = [x for x in SHORT_POOL if x not in reserved]   # shorts of inherited global args are taken
     nflag = rng.choice(prof.get("nflag", [0, 1, 1, 2, 3]))
     nopt = rng.choice(prof.get("nopt", [0, 1, 1, 2, 3]))
     npos = rng.choice(prof.get("npos", [0, 0, 1, 2, 3]))
@@ -257,11 +260,14 @@ def gen_cmd(rng, ctr, name, depth, prof):
         rest = iter(seq)
         allk = [x if x is not None else next(rest) for x in out]
     for k, o in allk:
+        o["p_global"] = prof.get("p_global", 0.18) if nsub else 0.0
         o["p_next_line"] = prof.get("p_next_line", 0.08)
         c["args"].append(gen_arg(rng, ctr, shorts, k, o))
+    reserved = tuple(reserved) + tuple(x for a in c["args"] if a.get("global")
+                                       for x in ([a["short"]] if "short" in a else []) + [al[0] for al in a.get("saliases", [])])
     for _ in range(nsub):
         sn = "sc" + ctr.next() + "z" + "n" * rng.choice([0, 0, 2, 9])
-        s = gen_cmd(rng, ctr, sn, depth - 1, prof)
+        s = gen_cmd(rng, ctr, sn, depth - 1, prof, reserved)
         if rng.random() < 0.2:
             s["hide"] = True
         if rng.random() < 0.12 and shorts:
@@ -274,7 +280,7 @@ def gen_cmd(rng, ctr, name, depth, prof):
         if rng.random() < prof.get("p_case_twin", 0.12):
             # a sibling whose name differs only in letter case and shares the (explicit) display order: a
             # case-folding sort key would make the two collide and one of them vanish from "Commands:"
-            t = gen_cmd(rng, ctr, sn.upper(), 0, prof)
+            t = gen_cmd(rng, ctr, sn.upper(), 0, prof, reserved)
             s["order"] = t["order"] = s.get("order", rng.choice([0, 1, 7]))
             c["subs"].append(t)
     return c
@@ -513,7 +519,7 @@ def dec_arg(l):
             a["num"] = (int(r[0]), None if r[1] == "inf" else int(r[1]))
         elif h == "flags":
             for f in r:
-                a[{"required": "required", "last": "last", "reqeq": "reqeq", "hide": "hide"}[f]] = True
+                a[{"required": "required", "last": "last", "reqeq": "reqeq", "hide": "hide", "global": "global"}[f]] = True
         elif h in ("help", "x-help"):
             a["help"] = s_(r[0])
         elif h == "x-long-help":
@@ -707,7 +713,10 @@ def walk(cmd, path):
         nxt = [s for s in lv["subs"] if s["name"] == p]
         if not nxt:
             return None, inherited
-        lv = nxt[0]
+        # global arguments of the level above are arguments of this level too (unless it defines the id itself)
+        ids = set(a["id"] for a in nxt[0]["args"])
+        glob = [a for a in lv["args"] if a.get("global") and a["id"] not in ids]
+        lv = dict(nxt[0], args=nxt[0]["args"] + glob)
         inherited |= set(x for x in lv["sets"] if x.startswith("disable_"))
     return lv, inherited
 
@@ -895,7 +904,7 @@ def describe(cases, name):
         d["which=" + k] = sum(1 for c in cases if "(which %s)" % k in c or "(which (%s" % k in c)
     for k in ("(action count)", "(x-heading", "(x-order", "(x-next-line)", "(x-hide-short)", "(x-hide-long)", "(x-pv",
               "(x-hide-pv)", "hide", "disable_help_flag", "(sub ", "(short_flag", "(x-long-help", "reqeq", "last",
-              "(env ", "(x-hide-env)", "(x-hide-env-values)", "(default ", "(x-hide-default)", "(alias ", " v)", "(salias "):
+              "global", "(env ", "(x-hide-env)", "(x-hide-env-values)", "(default ", "(x-hide-default)", "(alias ", " v)", "(salias "):
         d["has " + k] = sum(1 for c in cases if k in c)
     ws = [int(re.search(r"\(width (\d+)\)", c).group(1)) for c in cases if "(width" in c]
     d["widths distinct"] = len(set(ws))
